@@ -208,6 +208,15 @@ def check(chk):
         for n in brk:
             ok = ok and not any(cfg.path_avoiding(finds[0].id, [n.id], []) and s_.id in (cfg.path_avoiding(finds[0].id, [n.id], []) or []) for s_ in stores)
         chk.ob("PAIR-15", "%s leaves an incomplete frame in the buffer untouched" % qn, ok, f.where(), construct=f.ident, text="incomplete frame")
+        # the decode loop is left only because no complete frame is buffered any more: a frame's content (an ignored acknowledge, an empty
+        # frame) never ends the loop - the frames behind it in the same read would wait for the next read (split-dependence)
+        leaves = [n for n in cfg.nodes_where(lambda n: n.kind == "stmt" and isinstance(n.ast, (ast.Break, ast.Return)))]
+        heads_ = [h for h in cfg.nodes if h.kind == "join" and isinstance(h.ast, ast.While)]
+        inl = [n for n in leaves if heads_ and any(y is n.ast for y in ast.walk(heads_[0].ast))]
+        badl = [n for n in inl if cfg.guards_at(n.id, ignore_exc=False).get("%s == -1" % pos) is not True and
+                cfg.guards_at(n.id, ignore_exc=False).get("self.machine.is_shutting_down") is not True]
+        chk.ob("PAIR-15", "%s leaves its decode loop only when no complete frame is buffered" % qn, bool(inl) and not badl, f.where(badl[0].ast) if badl else f.where(),
+               detail="guards %s" % sorted(cfg.guards_at(badl[0].id).items()) if badl else "", construct=f.ident, text="decode loop left on frame content")
         for s_ in stores:
             chk.ob("PAIR-15", "%s cuts the buffer only when a delimiter was found" % qn, cfg.guards_at(s_.id).get("%s == -1" % pos) is False,
                    f.where(s_.ast), construct=f.ident, text="cut guard")
@@ -727,6 +736,7 @@ def battery():
         M("twin: resync also checks the command byte, for every dispatched command", OS_, "                while strlen > 0:\n                    # wait for next gen2 card message\n                    if (self.part_msg[0] & 0xe0) == 0x20:\n                        self._lost_synch = False", "                while strlen > 1:\n                    # wait for next gen2 card message\n                    if (self.part_msg[0] & 0xe0) == 0x20 and (self.part_msg[1] == ord(OppRs232Intf.READ_GEN2_INP_CMD) or self.part_msg[1] == ord(OppRs232Intf.READ_MATRIX_INP)):\n                        self._lost_synch = False", None),
         M("OPP poll loop sends nothing after a timed-out wait", OP, "                self.log.warning(\"Poll took more than %sms for %s\", timeout * 1000, chain_serial)\n            else:\n                self._poll_response_received[chain_serial].clear()", "                self.log.warning(\"Poll took more than %sms for %s\", timeout * 1000, chain_serial)\n                continue\n\n            self._poll_response_received[chain_serial].clear()", "POLL-14"),
         M("OPP poll flag cleared although no answer came", OP, "                self.log.warning(\"Poll took more than %sms for %s\", timeout * 1000, chain_serial)\n            else:\n                self._poll_response_received[chain_serial].clear()", "                self.log.warning(\"Poll took more than %sms for %s\", timeout * 1000, chain_serial)\n                self._poll_response_received[chain_serial].clear()", "POLL-14"),
+        M("PKONE decoder stops at an ignored frame", PK, "            if msg.decode() not in self.ignored_messages:\n                self.platform.process_received_message(msg.decode())", "            if msg.decode() in self.ignored_messages:\n                return\n\n            self.platform.process_received_message(msg.decode())", "PAIR-15"),
     ]
 
 
